@@ -13,6 +13,7 @@ func Gen(run *vlib.Run, seed uint64, tier string) {
 	r := vlib.NewRand(seed)
 	genCoverage(run, r.Fork("coverage"), tier)
 	genClassdef(run, r.Fork("classdef"), tier)
+	genLookupLists(run, r.Fork("lookuplist"), tier)
 }
 
 func pairsOf(x vlib.Sx) ([]pair, error) {
@@ -118,6 +119,84 @@ func RunCase(line string) (impl, fail, sig string, err error) {
 		}
 		impl, fail = cdRead(data, pos)
 		return impl, fail, "c08-classdef-read", nil
+	case "ll-enc", "ll-rt":
+		if len(items) != 2 {
+			return "", "", "", errors.New(kind + ": want 1 argument")
+		}
+		ll, err := llOf(items[1])
+		if err != nil {
+			return "", "", "", err
+		}
+		obsEnc, obsRt, fail, _ := llEncode(ll)
+		if kind == "ll-enc" {
+			return obsEnc, fail, "c08-lookuplist", nil
+		}
+		return obsRt, fail, "c08-lookuplist", nil
+	case "ll-read":
+		if len(items) != 4 {
+			return "", "", "", errors.New("ll-read: want 3 arguments")
+		}
+		data, err := vlib.AsBytes(items[1])
+		if err != nil {
+			return "", "", "", err
+		}
+		pos, err1 := vlib.AsInt(items[2])
+		ext, err2 := vlib.AsInt(items[3])
+		if err1 != nil || err2 != nil {
+			return "", "", "", errors.New("ll-read: bad numbers")
+		}
+		impl, fail = llRead(data, pos, ext)
+		return impl, fail, "c08-lookuplist-read", nil
 	}
 	return "", "", "", fmt.Errorf("unknown case kind %q", kind)
+}
+
+func llOf(x vlib.Sx) ([]llLookup, error) {
+	l, err := vlib.AsList(x)
+	if err != nil {
+		return nil, err
+	}
+	out := make([]llLookup, len(l))
+	for i, y := range l {
+		f, err := vlib.AsList(y)
+		if err != nil || len(f) != 4 {
+			return nil, errors.New("bad lookup")
+		}
+		tp, e1 := vlib.AsInt(f[0])
+		fl, e2 := vlib.AsInt(f[1])
+		mfs, e3 := vlib.AsInt(f[2])
+		subs, e4 := vlib.AsList(f[3])
+		if e1 != nil || e2 != nil || e3 != nil || e4 != nil {
+			return nil, errors.New("bad lookup fields")
+		}
+		out[i] = llLookup{tp: tp, flags: fl, mfs: mfs}
+		for _, sx := range subs {
+			sf, err := vlib.AsList(sx)
+			if err != nil || len(sf) < 2 {
+				return nil, errors.New("bad subtable")
+			}
+			k, _ := vlib.AsAtom(sf[0])
+			switch k {
+			case "b":
+				if len(sf) != 3 {
+					return nil, errors.New("bad blob")
+				}
+				sz, e1 := vlib.AsInt(sf[1])
+				sd, e2 := vlib.AsInt(sf[2])
+				if e1 != nil || e2 != nil || sz < 0 || sz > 1<<24 {
+					return nil, errors.New("bad blob size")
+				}
+				out[i].subs = append(out[i].subs, llSub{kind: "b", size: sz, seed: sd})
+			case "gsub", "gpos", "ctx":
+				d, err := vlib.AsBytes(sf[1])
+				if err != nil {
+					return nil, err
+				}
+				out[i].subs = append(out[i].subs, llSub{kind: k, data: d})
+			default:
+				return nil, errors.New("bad subtable kind")
+			}
+		}
+	}
+	return out, nil
 }
